@@ -427,7 +427,7 @@ fn concurrent_programs() -> Vec<(crate::sched::Program, crate::props::e1::Mode)>
                     threads: e1::own_handles(threads, true),
                     create_write_dir: true,
                 },
-                Mode::Bounded(2),
+                crate::props::e1::side_bound(),
             ));
         };
         add("set|deleter", vec![vec![api(Op::Set(m.clone(), v(0)))], vec![POp::Unlink(loc("x1")), POp::Unlink(loc("k"))]]);
